@@ -246,9 +246,48 @@ def huge_values(ctx):
             ctx.oracle_fail("round trip differs for %s" % vals, {"array": vals}, cls="C01-roundtrip")
 
 
+def extreme_steps(ctx):
+    """values at both ends of the array's OWN (signed or unsigned) dtype, in orders whose steps exceed half the dtype's range:
+    a difference, a sum or an offset computed in the array's dtype wraps there.  Round trip through to_array(dtype=int64 /
+    uint64), library-chosen and caller-chosen common value, with and without supplied counts."""
+    from catii import iindex
+    for nm in ("int8", "int16", "int32", "int64", "uint8", "uint16", "uint32"):
+        info = np.iinfo(nm)
+        lo, hi = int(info.min), int(info.max)
+        mid = (lo + hi) // 2
+        patterns = [[hi - 27, hi - 27, lo + 28, lo + 28, lo + 28], [hi, lo, lo], [hi - 1, lo + 1, lo + 1, mid + 5],
+                    [lo, lo, hi, hi, hi, lo], [mid, hi, lo, lo, mid, mid, mid], [hi, hi, hi, lo + 3, lo + 3, mid, mid, mid, mid]]
+        for vals in patterns:
+            stored = np.array(vals, dtype=nm)
+            for common in (None, vals[-1]):
+                for use_counts in (False, True):
+                    if nm == "uint32" and not use_counts:
+                        continue        # without counts the library bincounts up to the largest value: 2^32 bins, ten seconds a call
+                    kw = {}
+                    if common is not None:
+                        kw["common"] = common
+                    if use_counts:
+                        v, c = np.unique(stored, return_counts=True)
+                        kw["counts"] = {int(x): int(y) for x, y in zip(v.tolist(), c.tolist())}
+                    desc = {"extreme_steps": vals, "dtype": nm, "common": common, "counts": use_counts}
+                    ctx.case(desc, nontrivial=True)
+                    ctx.hit("extreme_steps:" + nm)
+                    try:
+                        ix = iindex.from_array(stored.copy(), **kw)
+                        got = ix.to_array(dtype=np.int64 if lo < 0 or hi < 2 ** 63 else np.uint64)
+                    except Exception as e:
+                        ctx.oracle_fail("from_array / to_array of %s values %s raised %s: %s" % (nm, vals, type(e).__name__, str(e)[:60]),
+                                        desc, cls="C01-raises")
+                        continue
+                    if [int(x) for x in got.tolist()] != vals:
+                        ctx.oracle_fail("round trip of the %s array %s gives %s" % (nm, vals, [int(x) for x in got.tolist()]), desc,
+                                        cls="C01-roundtrip")
+
+
 def run(ctx):
     core.load_catii()
     reqs, pend = [], []
+    extreme_steps(ctx)
     # exhaustive small level
     n = 0
     for L in range(0, 6):
